@@ -63,7 +63,7 @@ Definition ec_coord_norm (cs : nat) (b : bytes) : option bytes :=
 (* field access by number on a message with its schema                 *)
 (* ------------------------------------------------------------------ *)
 Definition get_bytes (s : schema) (m : msg) (num : N) : option bytes :=
-  match get_field s m num with Some (_, VBytes b) => Some b | _ => None end.
+  match get_field s m num with Some (TBytes, VBytes b) => Some b | _ => None end.
 Definition get_int (s : schema) (m : msg) (num : N) : option N :=
   match get_field s m num with Some (_, VInt n) => Some n | _ => None end.
 (* Go getters on a nil sub-message return defaults: absent = all defaults *)
